@@ -114,7 +114,8 @@ def brentsroot(f, bounds, tol=None, verbose=False, return_interval=False):
     fa = f(a)
     fb = f(b)
 
-    if fa * fb > 0:
+    # (signs are compared, not products: the product of two tiny or huge values under- or overflows)
+    if (fa > 0 and fb > 0) or (fa < 0 and fb < 0):
         return D.ar_numpy.asarray(numpy.inf, like=lower_bound), False
     if D.ar_numpy.abs(fa) < D.ar_numpy.abs(fb):
         a, b = b, a
@@ -153,7 +154,7 @@ def brentsroot(f, bounds, tol=None, verbose=False, return_interval=False):
         numiter += 1
         d = c
 
-        if fa * fs < 0:
+        if (fa < 0 and fs > 0) or (fa > 0 and fs < 0):
             b = s
             fb = fs
         else:
@@ -171,7 +172,7 @@ def brentsroot(f, bounds, tol=None, verbose=False, return_interval=False):
             print(f"[{numiter}] a={D.ar_numpy.to_numpy(a)}, b={D.ar_numpy.to_numpy(b)}, f(a)={D.ar_numpy.to_numpy(fa)}, f(b)={D.ar_numpy.to_numpy(fb)}")
     # a root is certified either by a small residual or by a sign change bracketed to within the (relative) tolerance;
     # the residual alone depends on the scale of f and fails for steep or discontinuous functions
-    success = (D.ar_numpy.abs(f(b)) <= tol) | ((fa * fb <= 0) & (D.ar_numpy.abs(b - a) <= tol * D.ar_numpy.maximum(1.0, D.ar_numpy.abs(b))))
+    success = (D.ar_numpy.abs(f(b)) <= tol) | (~(((fa > 0) & (fb > 0)) | ((fa < 0) & (fb < 0))) & (D.ar_numpy.abs(b - a) <= tol * D.ar_numpy.maximum(1.0, D.ar_numpy.abs(b))))
     if return_interval:
         return b, success, (a, b)
     else:
@@ -255,7 +256,8 @@ def brentsrootvec(f, bounds, tol=None, verbose=False, return_interval=False, acc
     fs = D.ar_numpy.copy(fc)
 
     mflag = D.ar_numpy.ones_like(a, dtype=bool, like=upper_bound)
-    conv[fa * fb >= 0] = False
+    # (signs are compared, not products: the product of two tiny or huge values under- or overflows)
+    conv[((fa >= 0) & (fb >= 0)) | ((fa <= 0) & (fb <= 0))] = False
     not_conv = D.ar_numpy.logical_not(conv)
     numiter = D.ar_numpy.ones_like(a, dtype=D.autoray.to_backend_dtype('int64', like=upper_bound), like=upper_bound) * 3
     true_conv = D.ar_numpy.abs(fb) <= tol
@@ -295,7 +297,7 @@ def brentsrootvec(f, bounds, tol=None, verbose=False, return_interval=False, acc
         numiter[conv] = numiter[conv] + 1
         d = c
 
-        mask = fa * fs < 0
+        mask = ((fa < 0) & (fs > 0)) | ((fa > 0) & (fs < 0))
         mask[not_conv] = False
         b[mask] = s[mask]
         fb[mask] = fs[mask]
@@ -317,7 +319,7 @@ def brentsrootvec(f, bounds, tol=None, verbose=False, return_interval=False, acc
     if verbose:
         with numpy.printoptions(precision=17, linewidth=200):
             print(f"[{numiter}] a={D.ar_numpy.to_numpy(a)}, b={D.ar_numpy.to_numpy(b)}, f(a)={D.ar_numpy.to_numpy(fa)}, f(b)={D.ar_numpy.to_numpy(fb)}, conv={D.ar_numpy.to_numpy(not_conv)}")
-    true_conv = (fa * fb <= 0) & (true_conv | (D.ar_numpy.abs(b - a) <= tol * D.ar_numpy.maximum(1.0, D.ar_numpy.abs(b))))
+    true_conv = ~(((fa > 0) & (fb > 0)) | ((fa < 0) & (fb < 0))) & (true_conv | (D.ar_numpy.abs(b - a) <= tol * D.ar_numpy.maximum(1.0, D.ar_numpy.abs(b))))
     if return_interval:
         return b, true_conv, (a, b)
     else:
